@@ -95,6 +95,23 @@ func init() {
 		it.set(p.obj, p.off, v)
 		return nil, stOK
 	})
+	reg("sync/atomic.SwapPointer", func(it *Interp, g *G, fr *Frame, args []Value, site ssa.Instruction) (Value, stepResult) {
+		p := args[0].(*Ptr)
+		it.visible(g)
+		old := p.obj.get(p.off)
+		var v Value = args[1]
+		if up, ok := v.(*UnsafePtr); ok && up != nil {
+			v = up.v
+		}
+		it.set(p.obj, p.off, v)
+		if up, ok := old.(*UnsafePtr); ok {
+			return up, stOK
+		}
+		if isNilValue(old) {
+			return (*UnsafePtr)(nil), stOK
+		}
+		return &UnsafePtr{v: old}, stOK
+	})
 	for _, w := range []string{"Int32", "Int64", "Uint32", "Uint64"} {
 		w := w
 		reg("sync/atomic.Load"+w, func(it *Interp, g *G, fr *Frame, args []Value, site ssa.Instruction) (Value, stepResult) {
